@@ -37,20 +37,64 @@ def both_limits(r: R, chk, qual: str):
             lim = tuple(e.id for e in n.targets[0].elts if isinstance(e, ast.Name))
     chk.floor("BOTH-LIMITS", f"limits unpacking in {qual}", 1 if lim and len(lim) == 2 else 0, 1)
     node_param = fi.params[1]
-    conds = [n for n in r.stmt_nodes(ctx) if n.kind == "test"]
     lo_ok = hi_ok = False
-    for t in conds:
-        for c in ast.walk(t.ast):
-            if isinstance(c, ast.Compare) and len(c.ops) == 1:
-                l, rr, op = c.left, c.comparators[0], c.ops[0]
-                pairs = [(l, rr, type(op))] + [(rr, l, {ast.Lt: ast.Gt, ast.Gt: ast.Lt, ast.LtE: ast.GtE, ast.GtE: ast.LtE}.get(type(op)))]
-                for a, b, o in pairs:
-                    if isinstance(a, ast.Name) and a.id == node_param and isinstance(b, ast.Name) and o is not None:
-                        arm_false = any(isinstance(ctx.cfg.nodes[x].ast, ast.Return) and isinstance(ctx.cfg.nodes[x].ast.value, ast.Constant) and ctx.cfg.nodes[x].ast.value.value is False for x, lab in t.succ if lab == "t")
-                        if b.id == lim[0] and o in (ast.Lt,) and arm_false:
-                            lo_ok = True
-                        if b.id == lim[1] and o in (ast.Gt,) and arm_false:
-                            hi_ok = True
+
+    def simple(c):
+        if not (isinstance(c, ast.Compare) and len(c.ops) == 1):
+            return None
+        l, op, rr = c.left, c.ops[0], c.comparators[0]
+        if isinstance(op, ast.Lt):
+            return (l, True, rr)
+        if isinstance(op, ast.LtE):
+            return (l, False, rr)
+        if isinstance(op, ast.Gt):
+            return (rr, True, l)
+        if isinstance(op, ast.GtE):
+            return (rr, False, l)
+        return None
+
+    def disjuncts(e):
+        if isinstance(e, ast.BoolOp) and isinstance(e.op, ast.Or):
+            return [x for v in e.values for x in disjuncts(v)]
+        return [e]
+
+    def conjuncts(e):
+        if isinstance(e, ast.BoolOp) and isinstance(e.op, ast.And):
+            return [x for v in e.values for x in conjuncts(v)]
+        if isinstance(e, ast.Compare) and len(e.ops) > 1:
+            parts, left = [], e.left
+            for op, rr in zip(e.ops, e.comparators):
+                parts.append(ast.Compare(left=left, ops=[op], comparators=[rr]))
+                left = rr
+            return parts
+        return [e]
+
+    # comparisons whose truth makes the function answer False ("rejecting"), as (lower, strict, upper):
+    #   if A or B: return False      return not (A or B)      return C and D  (rejecting: not C, not D)
+    rejecting = []
+    for t in [n for n in r.stmt_nodes(ctx) if n.kind == "test"]:
+        arm_false = any(isinstance(ctx.cfg.nodes[x].ast, ast.Return) and isinstance(ctx.cfg.nodes[x].ast.value, ast.Constant) and ctx.cfg.nodes[x].ast.value.value is False for x, lab in t.succ if lab == "t")
+        if arm_false:
+            rejecting += [simple(d) for d in disjuncts(t.ast)]
+    for n in r.stmt_nodes(ctx):
+        if isinstance(n.ast, ast.Return) and n.ast.value is not None:
+            v = n.ast.value
+            if isinstance(v, ast.UnaryOp) and isinstance(v.op, ast.Not):
+                rejecting += [simple(d) for d in disjuncts(v.operand)]
+            elif isinstance(v, (ast.BoolOp, ast.Compare)):
+                for c in conjuncts(v):
+                    sc = simple(c)
+                    if sc is not None:
+                        # not (a <= b)  ==  b < a
+                        rejecting.append((sc[2], not sc[1], sc[0]))
+    for rj in rejecting:
+        if rj is None or lim is None or len(lim) != 2:
+            continue
+        lo_e, strict, hi_e = rj
+        if isinstance(lo_e, ast.Name) and lo_e.id == node_param and isinstance(hi_e, ast.Name) and hi_e.id == lim[0] and strict:
+            lo_ok = True
+        if isinstance(hi_e, ast.Name) and hi_e.id == node_param and isinstance(lo_e, ast.Name) and lo_e.id == lim[1] and strict:
+            hi_ok = True
     for side, ok in (("lower", lo_ok), ("upper", hi_ok)):
         chk.ob("BOTH-LIMITS", f"{qual}: a node beyond the {side} limit is invalid", ok, loc=r.loc(ctx, fi.node), detail="" if ok else f"{qual}: no comparison of the node with the {side} limit leads to `return False`: parameters beyond that end are accepted and evaluated", func=qual, construct=f"{side} limit not tested")
 
@@ -103,15 +147,48 @@ def run(m, chk):
     from .divisions import reachable_functions
 
     nho = 0
+
+    def simple(c):
+        """one comparison as (lower expr, strict?, upper expr) or None"""
+        if not (isinstance(c, ast.Compare) and len(c.ops) == 1):
+            return None
+        l, op, rr = c.left, c.ops[0], c.comparators[0]
+        if isinstance(op, ast.Lt):
+            return (l, True, rr)
+        if isinstance(op, ast.LtE):
+            return (l, False, rr)
+        if isinstance(op, ast.Gt):
+            return (rr, True, l)
+        if isinstance(op, ast.GtE):
+            return (rr, False, l)
+        return None
+
+    def memberships(fnode):
+        """(node, lower strict?, upper strict?) for every `a <op> u <op> b` with u a name and a, b subscripts — written as a
+        chained comparison or as two comparisons joined with `and`"""
+        out = []
+        for c in ast.walk(fnode):
+            if isinstance(c, ast.Compare) and len(c.ops) == 2 and all(isinstance(o, (ast.Lt, ast.LtE)) for o in c.ops) and isinstance(c.left, ast.Subscript) and isinstance(c.comparators[1], ast.Subscript) and isinstance(c.comparators[0], ast.Name):
+                out.append((c, isinstance(c.ops[0], ast.Lt), isinstance(c.ops[1], ast.Lt)))
+            elif isinstance(c, ast.BoolOp) and isinstance(c.op, ast.And):
+                parts = [simple(v) for v in c.values]
+                for i, p1 in enumerate(parts):
+                    for j, p2 in enumerate(parts):
+                        if i == j or p1 is None or p2 is None:
+                            continue
+                        # p1: a <op> u   p2: u <op> b
+                        if isinstance(p1[0], ast.Subscript) and isinstance(p1[2], ast.Name) and isinstance(p2[0], ast.Name) and p2[0].id == p1[2].id and isinstance(p2[2], ast.Subscript):
+                            out.append((c, p1[1], p2[1]))
+        return out
+
     for q2 in reachable_functions(r, ["curves.Curve.eval", "functions.FunctionEvaluator.eval"]):
         f2 = r.prog.func(q2)
-        for c in ast.walk(f2.node):
-            if isinstance(c, ast.Compare) and len(c.ops) == 2 and all(isinstance(o, (ast.Lt, ast.LtE)) for o in c.ops) and isinstance(c.left, ast.Subscript) and isinstance(c.comparators[1], ast.Subscript) and isinstance(c.comparators[0], ast.Name):
-                nho += 1
-                ok = isinstance(c.ops[0], ast.LtE) and isinstance(c.ops[1], ast.Lt)
-                chk.ob("HALF-OPEN", f"{q2}: `{seg(c, 50)}` is half-open on the right", ok, loc=f"{f2.module}.py:{c.lineno}",
-                       detail="" if ok else f"{q2}: the span membership test `{seg(c, 60)}` is not `a <= u < b`: a parameter equal to an interior knot is attributed to the span on its left, so the value there is the left limit instead of the right-continuous value (visible at knots of multiplicity degree+1 / degree 0)",
-                       func=q2, construct=f"span test not half-open: {seg(c, 40)}")
+        for c, lo_strict, hi_strict in memberships(f2.node):
+            nho += 1
+            ok = (not lo_strict) and hi_strict
+            chk.ob("HALF-OPEN", f"{q2}: `{seg(c, 50)}` is half-open on the right", ok, loc=f"{f2.module}.py:{c.lineno}",
+                   detail="" if ok else f"{q2}: the span membership test `{seg(c, 60)}` is not `a <= u < b`: a parameter equal to an interior knot is attributed to the span on its left, so the value there is the left limit instead of the right-continuous value (visible at knots of multiplicity degree+1 / degree 0)",
+                   func=q2, construct=f"span test not half-open: {seg(c, 40)}")
     chk.floor("HALF-OPEN", "span membership comparisons on the evaluation path", nho, 1)
     # 1b span guarded
     sq = IKV + "span"
